@@ -490,3 +490,35 @@ def c06_v2000(**p):
         c.note("tucan2", s2)
         c.oblige("strings-equal", str_eq(s1, s2))
     return body
+
+
+# ---------------------------------------------------------------------------
+# C05 at reader level: whatever a conformant file states (explicit zeros included) -> emitted string
+
+def c05_reader(**p):
+    n = p.get("n", 2)
+    fmt = p.get("fmt", "v3000")
+
+    def body(c):
+        from ref.tucan_ref import layout_problems
+        from symx.strings import term_of_char, ge, has_ph
+        shadows(c)
+        syms = p.get("symbols", ["C", "H", "D"])
+        elements = [syms[c.choice(f"el{a}", len(syms))] for a in range(n)]
+        vals = [{"RAD": c.int(f"rad{a}", 0, 3), "MASS": c.int(f"mass{a}", 0)} for a in range(n)]
+        if fmt == "v3000":
+            atoms = [A3(a + 1, elements[a], (0.0, 0.0, 0.0), [("CHG", c.int(f"chg{a}", -15, 15))] + ([("RAD", vals[a]["RAD"])] + ([("MASS", vals[a]["MASS"])] if elements[a] not in ("D", "T") else [])))
+                     for a in range(n)]
+            text = v3000_text(atoms, [B3(1, 1, 1, 2)] if n > 1 else [])
+        else:
+            al = [v2000_atom_line(elements[a]) for a in range(n)]
+            pl = fixed_lines("RAD", [(a + 1, vals[a]["RAD"]) for a in range(n)]) + fixed_lines("ISO", [(a + 1, vals[a]["MASS"]) for a in range(n) if elements[a] not in ("D", "T")])
+            text = v2000_text(al, [v2000_bond_line(1, 2, 1)] if n > 1 else [], pl)
+        c.note("molfile", text)
+        s = tucan_of(T()["read"](text))
+        c.note("tucan", s)
+        real = [real_symbol(e)[0] for e in elements]
+        problems, conds = layout_problems(s, real, term_of_char, ge) if has_ph(s) else layout_problems(s, real)
+        c.oblige("grammar-and-layout", not problems, problems[:3])
+        c.oblige("values-strictly-positive", all_(conds) if conds else True)
+    return body
